@@ -5,6 +5,7 @@ import (
 	"math"
 	"reflect"
 	"strings"
+	"time"
 	"unicode/utf8"
 
 	"github.com/flosch/pongo2/v6"
@@ -201,12 +202,71 @@ func runC18(r *run) {
 			}
 		}
 		emit(caseT{"render", (&world{}).args("{% widthratio 175 200 100 as wr %}[{{ wr }}]", nil)})
+		// date / time format a time value with the layout given (Go layouts)
+		for ti := 0; ti < 6; ti++ {
+			for _, layout := range []string{"2006-01-02", "15:04:05", "Mon Jan _2 15:04:05 2006", "02/01/06 03:04PM", "", "2006", "Z07:00 MST", "January 2, 2006 at 3pm", "x", ".000000", "Jan", "%Y"} {
+				emit(caseT{"timefmt", []string{fmt.Sprint(ti), hx(layout)}})
+			}
+		}
 	}
 	driveCases(r, gen, execC18)
 	r.finish(nil)
 }
 
+var c18Times = []time.Time{
+	time.Date(2020, 1, 2, 3, 4, 5, 6000, time.UTC), time.Date(1999, 12, 31, 23, 59, 59, 999999999, time.FixedZone("X", 3600)), {},
+	time.Date(2038, 1, 19, 3, 14, 8, 0, time.UTC), time.Date(1, 1, 1, 0, 0, 0, 0, time.UTC), time.Date(2024, 2, 29, 12, 0, 0, 0, time.FixedZone("", -5*3600-1800)),
+}
+
+func execTimeFmt(r *run, c caseT) {
+	var ti int
+	fmt.Sscanf(c.args[0], "%d", &ti)
+	layout := unhx(c.args[1])
+	t := c18Times[ti]
+	ctx := pongo2.Context{"t": t, "pt": &t, "layout": layout, "lst": []time.Time{t, t.Add(time.Hour)}}
+	var parts []string
+	for _, src := range []string{"{{ t|date:layout }}", "{{ t|time:layout }}", "{{ pt|date:layout }}", "{% for x in lst %}{{ x|date:layout }};{% endfor %}", "{{ lst.1|time:layout }}",
+		"{% if t < lst.1 %}lt{% endif %}{% if lst.1 > t %}gt{% endif %}{% if t <= t %}le{% endif %}{% if t >= lst.1 %}GE{% endif %}{% if t == t %}eq{% endif %}{% if t != lst.1 %}ne{% endif %}{% if lst.1 < t %}LT{% endif %}",
+		"{% ifequal t t %}E{% endifequal %}{% ifnotequal t lst.1 %}N{% endifnotequal %}{% if t in lst %}in{% endif %}"} {
+		tpl, err := pongo2.FromString("{% autoescape off %}" + src + "{% endautoescape %}")
+		if err != nil {
+			parts = append(parts, "cerr")
+			continue
+		}
+		out, xerr, p := executeIn(tpl, ctx)
+		switch {
+		case p != nil:
+			parts = append(parts, "panic:"+fmt.Sprint(p))
+		case xerr != nil:
+			parts = append(parts, "xerr")
+		default:
+			parts = append(parts, out)
+		}
+	}
+	id := r.emit(c.op, c.args, "timefmt:"+hx(strings.Join(parts, "|")))
+	r.nontrivial(c.args[0] + c.args[1])
+	t1 := t.Add(time.Hour)
+	want := []string{t.Format(layout), t.Format(layout), "", t.Format(layout) + ";" + t1.Format(layout) + ";", t1.Format(layout), "ltgtleeqne", "ENin"}
+	for k := range want {
+		if k == 2 {
+			// a pointer to a time: formatted like the time, or refused - never something else
+			if parts[k] != t.Format(layout) && parts[k] != "xerr" {
+				r.reject(id, "date on a *time.Time gave neither the formatted time nor an error", map[string]any{"layout": layout, "observed": parts[k]})
+			}
+			continue
+		}
+		if parts[k] != want[k] {
+			r.reject(id, "time values are not formatted / compared like Go's time package does", map[string]any{"time": t.String(), "layout": layout, "part": k, "observed": parts[k], "expected": want[k]})
+			return
+		}
+	}
+}
+
 func execC18(r *run, c caseT) {
+	if c.op == "timefmt" {
+		execTimeFmt(r, c)
+		return
+	}
 	if c.op == "render" {
 		w, src, ctx := worldFromArgs(c.args)
 		o, _ := w.render(src, false, ctx)
